@@ -189,13 +189,13 @@ def kinds_unambiguous_without_labels(case):
     return True
 
 
-def random_shared_case(rng, max_heavy, p_share=0.6, ctor=None, label_insensitive=False):
+def random_shared_case(rng, max_heavy, p_share=0.6, ctor=None, label_insensitive=False, mol_kw=None):
     """-> (shared case, disjoint case) for the same molecule, partition and rng stream"""
     ringy = rng.random() < 0.4
     if ringy:
-        g = M.gen_molecule(rng, max_heavy=max(max_heavy, 8), p_ring=0.8, p_arom=rng.choice([0.3, 0.7]))
+        g = M.gen_molecule(rng, max_heavy=max(max_heavy, 8), p_ring=0.8, p_arom=rng.choice([0.3, 0.7]), **(mol_kw or {}))
     else:
-        g = M.gen_molecule(rng, max_heavy=max_heavy)
+        g = M.gen_molecule(rng, max_heavy=max_heavy, **(mol_kw or {}))
     if len(g) < 2:
         return None
     force = ()
@@ -664,6 +664,8 @@ def random_marked_cut_case(rng, both_sides=False):
     if any(v > 4 for v in cutcount.values()):
         return None
     frags = {}
+    frag_atoms_ = {}
+    lig_marked = set()       # substituents whose slash mark was written (next to the substituent itself)
     for i, comp in enumerate(comps):
         lig_here = [lig for (lig, anc) in pairs if frozenset((lig, anc)) in label_of and lig in comp]
         start_ = rng.choice(lig_here) if (both_sides and lig_here) else None
@@ -679,6 +681,8 @@ def random_marked_cut_case(rng, both_sides=False):
                     desc_tok[(anc, label_of[frozenset((lig, anc))])] = tok
             elif lig in idx and anc in idx:
                 child_tok[lig if idx[lig] > idx[anc] else anc] = tok
+                lig_marked.add(lig)
+        frag_atoms_['F%d' % i] = list(r['atoms'])
         out = []
         first_atom_seen = False
         for t in r['tokens']:
@@ -692,6 +696,7 @@ def random_marked_cut_case(rng, both_sides=False):
                 for (lig, anc) in pairs:
                     if lig == start_ and label_of.get(frozenset((lig, anc))) == t[3][1]:
                         out.append(rng.choice(['/', '\\']))
+                        lig_marked.add(lig)
             if t[0] == 'atom':
                 first_atom_seen = True
         frags['F%d' % i] = ''.join(out)
@@ -709,4 +714,5 @@ def random_marked_cut_case(rng, both_sides=False):
     return dict(kind='marked_cut', base_string=G.to_string(ast), frag_string='{' + ','.join('#%s=%s' % kv for kv in items) + '}',
                 base_graph={'nodes': [[n, base.nodes[n]['fragname']] for n in base.nodes], 'edges': [[a, b, d['order']] for a, b, d in base.edges(data=True)]},
                 ctor='string', features=['cut_through_marked_single_bond', 'double_bonds_%d' % len(stereo)] + (['slash_on_both_sides'] if both_sides else []),
-                nheavy=len(g), nfrag=len(comps))
+                nheavy=len(g), nfrag=len(comps), frag_atoms=frag_atoms_,
+                fully_marked=[[s['a1'], s['a2']] for s in stereo if s['l1'] in lig_marked and s['l2'] in lig_marked])
